@@ -220,7 +220,7 @@ def h_alpn(X, maxlen):
         if stack == "secure-web-proxy-outer":
             upstream = "unknown"
         else:
-            upstream = X.choose("upstream", ["unknown", "handshake-done"])
+            upstream = X.choose("upstream", ["unknown", "handshake-done", "handshake-done-foreign"])
         if upstream == "handshake-done":
             server.address = ("example.com", 443)
             sdata = mtls.TlsData(server, ctx)
@@ -236,6 +236,15 @@ def h_alpn(X, maxlen):
                 p = wire[pick]
                 server.alpn = p
                 X.reach("upstream-selected")
+        elif upstream == "handshake-done-foreign":
+            # The server connection carries a protocol that does not come from mitmproxy's own offer filter:
+            # an addon pre-set server.alpn_offers in the tls_start_server hook (documented API), or the connection
+            # was negotiated for other offers.  Clause (2) of the property is judged only under the derived
+            # precondition above, and so is (3) (with http2 off the real filter never offers h2 upstream, so an upstream h2
+            # can only come from such an override); clause (1) is unconditional and is judged here as well.
+            server.address = ("example.com", 443)
+            server.alpn = X.choose("foreign_alpn", [b"h2", b"http/1.1", b"h3", b"zz"])
+            X.reach("upstream-foreign")
         else:
             X.reach("upstream-unknown")
 
@@ -266,12 +275,12 @@ def h_alpn(X, maxlen):
     if not (none or any(eq(result, o) for o in offers)):
         fail("C18/not-offered", "selected a protocol the client did not offer")
     # (2) upstream known => that protocol or none
-    if server.alpn is not None:
+    if server.alpn is not None and upstream != "handshake-done-foreign":
         X.reach("upstream-known")
         if not (none or (len(server.alpn) > 0 and eq(result, server.alpn))):
             fail("C18/differs-from-upstream", "selected protocol differs from the one negotiated upstream")
     # (3) http2 disabled => never h2
-    if not http2 and not none and eq(result, b"h2"):
+    if not http2 and not none and upstream != "handshake-done-foreign" and eq(result, b"h2"):
         fail("C18/h2-while-disabled", "h2 selected with http2=False")
     # (4) outer connection of a secure web proxy => http/1.1 only
     if stack == "secure-web-proxy-outer":
@@ -288,8 +297,8 @@ def obligations(tier):
     return [
         Symx("alpn-selection", lambda X: h_alpn(X, n),
              bounds=f"client offer lists of 0..{n} names, each a fully symbolic byte string of length 0/2/8/5 (covers h2, h3, http/1.1, http/1.0, http/0.9, "
-                    "empty and all unknown names of these lengths) x upstream {unknown, none negotiated, any name the real tls_start_server offered} x http2 x "
+                    "empty and all unknown names of these lengths) x upstream {unknown, none negotiated, any name the real tls_start_server offered, a name from outside that filter (clause 1 only)} x http2 x "
                     "4 layer stacks (secure web proxy outer, regular inner, reverse with 2 layers, transparent)",
-             encoded=ENCODED, must_reach=["selected", "none", "h2-selected", "upstream-known", "upstream-none", "upstream-selected", "upstream-unknown", "secure-web-proxy"],
+             encoded=ENCODED, must_reach=["selected", "none", "h2-selected", "upstream-known", "upstream-none", "upstream-selected", "upstream-unknown", "upstream-foreign", "secure-web-proxy"],
              stubs=STUBS, parallel_depth=4),
     ]
